@@ -5,6 +5,7 @@ Names2 == {"AA-MIB", "BB-MIB"}
 \* three files: two copies of one module and one other; revisions none / 1 / 2; a broken file
 FileSets_q == { {Fl("AA-MIB", ra, 1), Fl("AA-MIB", rb, 2), Fl(m3, rc, 3)} :
                    ra \in 0..2, rb \in 0..2, rc \in {0, 2}, m3 \in {"AA-MIB", "BB-MIB", "-"} }
+FileSets_u == { {Fl("AA-MIB", 1, 1), Fl("BB-MIB", 2, 2)} }
 D0(a, b) == [n \in Names2 |-> IF n = "AA-MIB" THEN a ELSE b]
 Dests_q == {D0(a, b) : a \in {NoCopy, Fl("AA-MIB", 0, 10), Fl("AA-MIB", 1, 10), Fl("AA-MIB", 2, 10)},
                         b \in {NoCopy, Fl("BB-MIB", 1, 11)}}
@@ -13,8 +14,10 @@ FileSets_t == { {Fl("AA-MIB", ra, 1), Fl("AA-MIB", rb, 2), Fl(m3, rc, 3), Fl(m4,
                    ra \in 0..3, rb \in 0..2, rc \in {0, 3}, rd \in {0, 1}, m3 \in {"AA-MIB", "BB-MIB"}, m4 \in {"BB-MIB", "-"} }
 Dests_t == {D0(a, b) : a \in {NoCopy, Fl("AA-MIB", 0, 10), Fl("AA-MIB", 2, 10)},
                         b \in {NoCopy, Fl("BB-MIB", 0, 11), Fl("BB-MIB", 1, 11)}}
+AllUsage == UsageKinds
+OnlyNone == {"none"}
 SetToSeq(S) == CHOOSE s \in [1..Cardinality(S) -> S] : \A x \in S : \E i \in DOMAIN s : s[i] = x
-Scen == [files |-> SetToSeq(srcs), dest0 |-> [n \in Names |-> dest0[n]], order |-> order,
+Scen == [usage |-> usage, mexit |-> exitc, files |-> SetToSeq(srcs), dest0 |-> [n \in Names |-> dest0[n]], order |-> order,
          dest |-> [n \in Names |-> dest[n]], copied |-> copied, notcopied |-> notcopied, failed |-> failedn]
 Export == Done => PrintT(ToJson(Scen))
 ====
